@@ -165,7 +165,7 @@ Theorem kstep_load_sound (st : option cfg) (e0 : ceff) (arg : option cfg)
   (* replay: no protocol error, and the effective admitted configuration results *)
   /\ exists e, replay cs e0 = Some e /\ rep' = Some e /\ Permutation e (eff_of st').
 Proof.
-  unfold kstep. intros H. inversion H as [[Ht Hst Hrep]]. clear H.
+  unfold kstep, kstep_load. intros H. inversion H as [[Ht Hst Hrep]]. clear H.
   apply app_eq_nil in Ht as [T2 Ht]. apply app_eq_nil in Ht as [T3 Ht]. apply app_eq_nil in Ht as [T4 T5].
   apply tagif_nil in T2, T3, T4, T5.
   pose proof (admissible_true st arg err) as Hgate1.
@@ -200,3 +200,51 @@ Example kstep_load_example :
         (RLoad false [HAdd "t1" (Some "q") (Some Witness.tA1)] (Some cA))
   = ([], Some cA, Some [("t1", (Some Witness.tA1, Some "q"))]).
 Proof. vm_compute. reflexivity. Qed.
+
+(** ** two overlapping Loads: no tag means the observed global call order is
+    load-contiguous (all calls of the first load before all of the second),
+    the second load returned early only if it was refused before the mutex,
+    each load on its own passes [kstep_load] (= [kstep] on a Load step, so
+    [kstep_load_sound] applies to each), and the replay of the calls in the
+    order they were made gives the effective admitted configuration. *)
+Theorem kstep_par_sound (st : option cfg) (rep : option ceff) (a b : option cfg)
+    (early : bool) (tr : list (nat * ccall)) (ea eb : bool) (cur : option cfg) st' rep' :
+  kstep st rep (OPar a b) (RPar early tr ea eb cur) = ([], st', rep') ->
+  contiguous (map fst tr) = true
+  /\ (early = true ->
+      eb = true /\ match b with Some c => ~ valid_p true c | None => True end)
+  /\ exists st1 rep1 rep2,
+       kstep st rep (OLoad a)
+             (RLoad ea (calls_of 0 tr) (shown (if admissible st a ea then a else st)))
+       = ([], st1, rep1)
+       /\ kstep st1 rep1 (OLoad b) (RLoad eb (calls_of 1 tr) cur) = ([], st', rep2)
+       /\ rep' = replay_step rep (map snd tr)
+       /\ rep_ok rep' st' = true.
+Proof.
+  unfold kstep.
+  destruct (kstep_load st rep a ea (calls_of 0 tr) (shown (if admissible st a ea then a else st)))
+    as [[ta st1] rep1] eqn:Ea.
+  destruct (kstep_load st1 rep1 b eb (calls_of 1 tr) cur) as [[tb st2] rep2] eqn:Eb.
+  intros H. injection H as Ht Hst Hrep. subst st2.
+  apply app_eq_nil in Ht as [T7 Ht]. apply app_eq_nil in Ht as [Ta Ht]. apply app_eq_nil in Ht as [Tb T5].
+  apply tagif_nil in T7, T5. subst ta tb.
+  apply andb_true_iff in T7 as [Hc He].
+  split; [assumption|]. split.
+  - intros ->. cbn in He. apply andb_true_iff in He as [-> Hb]. split; [reflexivity|].
+    destruct b as [c|]; [|exact I]. apply negb_true_iff in Hb. intros V.
+    apply valid_b_spec in V. congruence.
+  - exists st1, rep1, rep2. subst rep'. auto.
+Qed.
+
+Example kstep_par_example :
+  let a := Witness.cA in
+  let b := Witness.cA' in
+  fst (fst (kstep None (Some []) (OPar (Some a) (Some b))
+                  (RPar false [(0%nat, HAdd "t1" (Some "q") (Some Witness.tA1));
+                               (1%nat, HAdd "t2" (Some "q") (Some Witness.tB1))]
+                        false false (Some b)))) = []
+  /\ fst (fst (kstep None (Some []) (OPar (Some a) (Some b))
+                     (RPar true [(0%nat, HAdd "t1" (Some "q") (Some Witness.tA1));
+                                 (1%nat, HAdd "t2" (Some "q") (Some Witness.tB1))]
+                           false false (Some b)))) = [7%N].
+Proof. split; vm_compute; reflexivity. Qed.
